@@ -370,7 +370,7 @@ def run_shard(spec, acc):
         return one(spec['replay'], acc)
     rng = rng_for(spec['seed'], spec['shard'], {'enum': 71, 'rand': 72, 'slow': 73}[spec['mode']])
     made = 0
-    while made < spec['n']:
+    while made < spec['n'] and not acc.too_many():
         enc = rng.choice(CODECS + [None])
         errors = rng.choice(['strict', 'replace', 'ignore'])
         if enc is None:
@@ -389,6 +389,8 @@ def run_shard(spec, acc):
             n = len(data)
             for k in range(0, spec['maxcuts'] + 1):
                 for cuts in itertools.combinations(range(1, n), k):
+                    if acc.too_many():
+                        break
                     one({'enc': enc, 'errors': errors, 'data': data, 'cuts': list(cuts), 'transport': tr,
                          'use_expect': bool((made + k) % 2)}, acc)
             acc.count('streams_with_all_splittings')
